@@ -13,7 +13,17 @@ def _w(rank):
             mod = importlib.import_module(f"props.{name}")
             if not hasattr(mod, "check_case"): continue
             sess = core.Session(mod.PROP); mod.install(sess); t1 = time.time()
-            src = list(mod.extra_cases("quick", 0))[:0] if hasattr(mod, "extra_cases") else []
+            # the designed cases run FIRST in every check and reach specialisations the sampled enumeration below does not (forced thread counts, narrow dtypes, Arrow
+            # integers ...): compile them here too, so that a check on a freshly restored tree spends its budget on cases, not on the JIT (real-size cases are skipped)
+            if hasattr(mod, "extra_cases"):
+                for j, case in enumerate(mod.extra_cases("quick", 0)):
+                    if time.time() - t1 > 20: break
+                    if j % 16 != rank % 16 and j % 3 != 0: continue          # every rank its own share + a common third (the kernels most cases share)
+                    if isinstance(case, dict) and case.get("big"): continue
+                    sess.current_case = case
+                    try: mod.check_case(sess, case); n += 1
+                    except Exception: pass
+            t1 = time.time()
             for i, case in enumerate(mod.cases("quick", 0)):
                 if time.time() - t1 > 25 or i > 40000: break
                 if i % 37 == 0 or i < 30:
